@@ -30,7 +30,7 @@ def _capdict(it, **vals):
     return {k: mk_obj(it, I, "Capture", element=None, capture=k, names=[k], values=[v]) for k, v in vals.items()}
 
 
-@unit("Overlay.tweak-rewrite", ["C04"], [O + ":Overlay.tweak", O + ":Overlay.rewrite", O + ":BaseOverlay.__init__", O + ":BaseOverlay.add",
+@unit("Overlay.tweak-rewrite", ["C04", "C16"], [O + ":Overlay.tweak", O + ":Overlay.rewrite", O + ":BaseOverlay.__init__", O + ":BaseOverlay.add",
                                          O + ":BaseOverlay.fork", O + ":Overlay.tweaking", O + ":Overlay.rewriting", I + ":Immediate.__init__"])
 def u_tweak_rewrite(c):
     """tweak({sel: v}) adds one Immediate per selector whose intercept ignores the captures and returns exactly v;
@@ -52,6 +52,17 @@ def u_tweak_rewrite(c):
                 and h.fields["_intercept"] is not None)
         st, out = run(it, h.fields["_intercept"], [caps])
         c.prove("tweak/intercept-returns-the-given-value", st == "ok" and out is v)
+        # several selectors in ONE call: each rule hands in the value given for ITS selector
+        n = 2 + c.choose(2, "entries")
+        sels = [_real_selector(it) for _ in range(n)]
+        vals = [c.val(f"v{i}") for i in range(n)]
+        many = it.call(Ov, [], {})
+        st, r = run(it, it.getattr(many, "tweak"), [dict(zip(sels, vals))])
+        hs = many.fields["handlers"]
+        c.prove("tweak-many/one-handler-per-selector-in-order", st == "ok" and len(hs) == n and all(hs[i].fields["selector"] is sels[i] for i in range(n)))
+        for i in range(min(n, len(hs))):
+            st, out = run(it, hs[i].fields["_intercept"], [caps])
+            c.prove(f"tweak-many/rule{i}-returns-the-value-given-for-its-own-selector", st == "ok" and out is vals[i])
     elif which == 1:
         full = bool(c.choose(2, "full"))
         fn = callback(it, "rewriter", pure=False)
@@ -68,6 +79,18 @@ def u_tweak_rewrite(c):
             else:
                 c.prove("rewrite/gets-the-values", isinstance(arg, dict) and set(arg) == {"x", "y"} and arg["x"] is x and arg["y"] is y)
             c.prove("rewrite/result-is-the-function's-result", it.to_val(out) == __import__("pvc.sym", fromlist=["ret_of"]).ret_of(c.log))
+        # several selectors in ONE call: each rule calls the function given for ITS selector
+        sels = [_real_selector(it) for _ in range(2)]
+        seen = []
+        fns = [SummaryFn(f"rw{i}", (lambda i_: lambda it_, a, k: seen.append(i_))(i)) for i in range(2)]
+        many = it.call(Ov, [], {})
+        st, r = run(it, it.getattr(many, "rewrite"), [dict(zip(sels, fns))], dict(full=full))
+        hs = many.fields["handlers"]
+        c.prove("rewrite-many/one-handler-per-selector-in-order", st == "ok" and len(hs) == 2 and all(hs[i].fields["selector"] is sels[i] for i in range(2)))
+        for i in range(min(2, len(hs))):
+            del seen[:]
+            st, out = run(it, hs[i].fields["_intercept"], [caps])
+            c.prove(f"rewrite-many/rule{i}-calls-the-function-given-for-its-own-selector", st == "ok" and seen == [i])
     else:
         st, r = run(it, it.getattr(base, "tweaking"), [{sel: v}])
         c.prove("tweaking/new-overlay-original-untouched", st == "ok" and r is not base and base.fields["handlers"] == [] and len(r.fields["handlers"]) == 1)
@@ -159,7 +182,19 @@ def u_entry_points(c):
     gp = it.get_global(P, "global_probes")
     HC = it.get_global(O, "HandlerCollection")
     var = HC.attrs["current"]
-    k = c.choose(4, "entry")
+    k = c.choose(5, "entry")
+    if k == 4:
+        # a DERIVED handle (what probe["a"], probe.min(), ... return: same class, own observable, shared root) stands for the
+        # probe: deactivating through it deactivates the root (the README keeps global probes that way)
+        st, prb = run(it, it.get_global(P, "global_probe"), [sel])
+        c.require(st == "ok")
+        derived = it.call(it.getattr(prb, "_copy"), [SymObj("derived-observable", Val.ref(z3.IntVal(c.new_id())))], {})
+        c.prove("derived/shares-the-root", derived is not prb and derived.fields["_root"] is prb)
+        st, _ = run(it, it.getattr(derived, "deactivate"), [])
+        c.prove("deactivate-through-derived-handle/undoes-activation", st == "ok" and prb not in gp and var.value is None and events == [("autotool", False), ("autotool", True)])
+        st, r = run(it, it.getattr(derived, "activate"), [])
+        c.prove("activate-through-derived-handle/refused-after-use", st == "raise" and events == [("autotool", False), ("autotool", True)])
+        return
     if k == 0:
         overridable = bool(c.choose(2))
         st, prb = run(it, it.get_global(P, "probing"), [sel], dict(overridable=overridable))
